@@ -19,3 +19,4 @@ open Emboss.Fmt
 #print axioms C11_row_retokenizes_partial
 #print axioms C11_retokenize_module_partial
 #print axioms C11_columnize_retokenizes_partial
+#print axioms C11_retokenize_checked
